@@ -59,5 +59,7 @@ def time_notes(
                         beat=note.beat,
                         column=note.column,
                         note_type=NoteType.FAKE,
+                        player=note.player,
+                        keysound_index=note.keysound_index,
                     ),
                 )
